@@ -62,16 +62,35 @@ func anySites(x Expr, out map[string]bool) {
 	}
 }
 
-// siteOrdinals: the ordinals of the call sites of `name` in the function under verification.
-func (e *Engine) siteOrdinals(name string) []int {
-	var out []int
+// siteLabels: the labels of the call sites of `name`: the sites of the function under verification itself and the
+// sites reached inside callees that were inlined into it (helpers without contract).
+func (e *Engine) siteLabels(name string) []string {
+	seen := map[string]bool{}
+	var out []string
 	for c, k := range e.P.callOrdinals[e.Fn] {
 		id, _ := e.P.calleeID(c)
 		if labelName(id) == name {
-			out = append(out, k)
+			l := fmt.Sprintf("%s#%d", name, k)
+			if !seen[l] {
+				seen[l] = true
+				out = append(out, l)
+			}
 		}
 	}
-	sort.Ints(out)
+	for l := range e.labels {
+		i := strings.LastIndex(l, "#")
+		if i < 0 {
+			continue
+		}
+		base := l[:i]
+		if base == name || strings.HasSuffix(base, "."+name) {
+			if !seen[l] {
+				seen[l] = true
+				out = append(out, l)
+			}
+		}
+	}
+	sort.Strings(out)
 	return out
 }
 
@@ -89,18 +108,18 @@ func (env *Env) evalBool(x Expr) (Term, error) {
 			sort.Strings(keys)
 			combos := []map[string]string{{}}
 			for _, n := range keys {
-				ords := env.e.siteOrdinals(n)
-				if len(ords) == 0 {
-					ords = []int{1}
+				lbls := env.e.siteLabels(n)
+				if len(lbls) == 0 {
+					lbls = []string{n + "#1"}
 				}
 				var next []map[string]string
 				for _, c := range combos {
-					for _, k := range ords {
+					for _, l := range lbls {
 						m := map[string]string{}
 						for a, b := range c {
 							m[a] = b
 						}
-						m[n+"#any"] = fmt.Sprintf("%s#%d", n, k)
+						m[n+"#any"] = l
 						next = append(next, m)
 					}
 				}
@@ -121,6 +140,13 @@ func (env *Env) evalBool(x Expr) (Term, error) {
 	}
 	v, err := env.eval(x)
 	if err != nil {
+		if ms, ok := err.(*missingSiteError); ok {
+			if _, isCall := x.(ECall); isCall {
+				// a predicate atom about a call site the code does not have: false
+				env.e.note("contract atom %s mentions call site %s which does not exist in %s (atom is false)", x.exprString(), ms.label, ms.fn)
+				return False, nil
+			}
+		}
 		return Term{}, err
 	}
 	if len(v.L) != 1 || v.L[0].Sort != SBool {
@@ -517,10 +543,19 @@ func (env *Env) binary(n EBinary) (Val, error) {
 	}
 	a, err := env.eval(n.X)
 	if err != nil {
+		if ms, ok := err.(*missingSiteError); ok && isComparison(n.Op) {
+			// an atom about a call site the code does not have (any more): false, like called() of that site
+			env.e.note("contract atom %s mentions call site %s which does not exist in %s (atom is false)", n.exprString(), ms.label, ms.fn)
+			return boolVal(False), nil
+		}
 		return Val{}, err
 	}
 	b, err := env.eval(n.Y)
 	if err != nil {
+		if ms, ok := err.(*missingSiteError); ok && isComparison(n.Op) {
+			env.e.note("contract atom %s mentions call site %s which does not exist in %s (atom is false)", n.exprString(), ms.label, ms.fn)
+			return boolVal(False), nil
+		}
 		return Val{}, err
 	}
 	switch n.Op {
@@ -717,7 +752,7 @@ func (env *Env) callExpr(n ECall) (Val, error) {
 			// call site not reached so far: an arbitrary value of the right type (uses are guarded by called())
 			c := env.e.labelCall(lbl)
 			if c == nil {
-				return Val{}, fmt.Errorf("no call site %s in %s", lbl, env.e.FuncID)
+				return Val{}, &missingSiteError{lbl, env.e.FuncID}
 			}
 			var t types.Type
 			if fname == "res" {
@@ -1214,6 +1249,19 @@ func (e *Engine) knownLabel(lbl string) bool {
 		if labelName(id) == name {
 			return true
 		}
+	}
+	return false
+}
+
+// missingSiteError: res()/arg() of a call site that the function does not contain.
+type missingSiteError struct{ label, fn string }
+
+func (m *missingSiteError) Error() string { return "no call site " + m.label + " in " + m.fn }
+
+func isComparison(op string) bool {
+	switch op {
+	case "==", "!=", "<", "<=", ">", ">=":
+		return true
 	}
 	return false
 }
